@@ -10,8 +10,10 @@ import (
 )
 
 // pat compiles a pattern over canonical strings: everything is literal except
-//   §        any (shortest) run of characters
-//   «regex»  raw regular expression
+//
+//	§        any (shortest) run of characters
+//	«regex»  raw regular expression
+//
 // The pattern is anchored at both ends unless it starts/ends with §.
 func pat(s string) *regexp.Regexp {
 	var b strings.Builder
@@ -50,9 +52,9 @@ type L struct {
 	Kill  string
 }
 
-func C(p, label string) L  { return L{Kind: EvCond, Re: pat(p), Label: label} }
-func I(p, label string) L  { return L{Kind: EvInstr, Re: pat(p), Label: label} }
-func IK(p, kill string) L  { return L{Kind: EvInstr, Re: pat(p), Kill: kill} }
+func C(p, label string) L { return L{Kind: EvCond, Re: pat(p), Label: label} }
+func I(p, label string) L { return L{Kind: EvInstr, Re: pat(p), Label: label} }
+func IK(p, kill string) L { return L{Kind: EvInstr, Re: pat(p), Kill: kill} }
 
 // labeler builds a classifier from a table.
 func labeler(ls ...L) Classifier {
@@ -253,4 +255,25 @@ func (e *Engine) closureOfCall(fn *ssa.Function, calleePat string, arg int) *ssa
 		}
 	}
 	return nil
+}
+
+// CF is a classifier line whose label is computed from the regexp submatches.
+func CF(kind int, p string, f func(m []string) string) Classifier {
+	re := pat(p)
+	return func(ev *Event) (add, kill []string) {
+		if kind >= 0 && ev.Kind != kind {
+			return
+		}
+		if m := re.FindStringSubmatch(ev.Str); m != nil {
+			if l := f(m); l != "" {
+				add = append(add, l)
+			}
+		}
+		return
+	}
+}
+
+// only returns a target predicate for exactly this instruction.
+func only(target ssa.Instruction) func(ssa.Instruction) bool {
+	return func(in ssa.Instruction) bool { return in == target }
 }
